@@ -222,6 +222,19 @@ def b_field(ex: Exec, node: ast.Call) -> SV:
     return SV(None, T.RAW, aux=("field", ex.ref_id(o), name))
 
 
+def b_each_value(ex: Exec, node: ast.Call) -> SV:
+    """each_value(d): frame entry covering every object stored as a value of dict d
+    (as d is when the clause is evaluated), all attributes."""
+    d = ex.eval(node.args[0])
+    dom, mp = ex.ddom(d), ex.dmap(d)
+
+    def match(oid, dom=dom, mp=mp):
+        k = z3.Const("k!ev", S.Val)
+        return z3.Exists([k], z3.And(z3.Select(dom, k), S.is_ref(z3.Select(mp, k)), S.un_ref(z3.Select(mp, k)) == oid))
+
+    return SV(None, T.RAW, aux=("each", match, "f*"))
+
+
 def b_unchanged(ex: Exec, node: ast.Call) -> SV:
     """Container contents (and, with field names, object fields) equal their old value."""
     o = ex.eval(node.args[0])
@@ -457,6 +470,7 @@ _TABLE = {
     "fresh": b_fresh,
     "field": b_field,
     "unchanged": b_unchanged,
+    "each_value": b_each_value,
     "elems": b_seq,
     "seq": b_seq,
     "apply": b_apply,
